@@ -933,3 +933,46 @@ func vfServerHellosOnWire(stream []byte) []*vfServerHello {
 	}
 	return out
 }
+
+// vfSerializeHello re-encodes a parsed hello (after edits to its fields / extension bodies) as a handshake message.
+func vfSerializeHello(h *vfHello) []byte {
+	b := &vfWr{}
+	b.u16(h.Version)
+	b.raw(h.Random)
+	b.vec8(h.SessionID)
+	s := &vfWr{}
+	for _, x := range h.Suites {
+		s.u16(x)
+	}
+	b.vec16(s.b)
+	b.vec8(h.Compression)
+	if h.HasExts {
+		e := &vfWr{}
+		for _, x := range h.Exts {
+			e.u16(x.Type)
+			e.vec16(x.Body)
+		}
+		b.vec16(e.b)
+	}
+	out := []byte{1, byte(len(b.b) >> 16), byte(len(b.b) >> 8), byte(len(b.b))}
+	return append(out, b.b...)
+}
+
+type vfWr struct{ b []byte }
+
+func (w *vfWr) u8(v uint8)   { w.b = append(w.b, v) }
+func (w *vfWr) u16(v uint16) { w.b = append(w.b, byte(v>>8), byte(v)) }
+func (w *vfWr) raw(v []byte) { w.b = append(w.b, v...) }
+func (w *vfWr) vec8(v []byte) {
+	w.u8(uint8(len(v)))
+	w.raw(v)
+}
+func (w *vfWr) vec16(v []byte) {
+	w.u16(uint16(len(v)))
+	w.raw(v)
+}
+
+// vfRecordOf wraps a handshake message into one TLS record.
+func vfRecordOf(msg []byte) []byte {
+	return append([]byte{22, 3, 1, byte(len(msg) >> 8), byte(len(msg))}, msg...)
+}
